@@ -170,10 +170,14 @@ class FirstOrderMutator(Mutator):
             next_value = next(generator, None)
             assert next_value is not None, "Selected mutation could not be regenerated"
             new_mutation, mutant = next_value
-            yield [new_mutation], mutant
-            # Exhaust the generator so the operator restores the (shared) AST
-            # before the next mutation is applied.
-            assert next(generator, None) is None, "Mutation operator yielded more than once"
+            try:
+                yield [new_mutation], mutant
+            finally:
+                # Exhaust the generator so the operator restores the (shared) AST
+                # before the next mutation is applied, also when this generator
+                # is closed before it is exhausted.
+                remaining = next(generator, None)
+            assert remaining is None, "Mutation operator yielded more than once"
 
     def mutation_count(  # noqa: D102
         self,
@@ -269,8 +273,12 @@ class HighOrderMutator(FirstOrderMutator):
                 new_mutation, mutant = next_value
                 applied_mutations.append(new_mutation)
                 generators.append(generator)
-            yield applied_mutations, mutant
-            self._finish_generators(generators)
+            try:
+                yield applied_mutations, mutant
+            finally:
+                # Also restores the (shared) AST when this generator is closed
+                # before it is exhausted.
+                self._finish_generators(generators)
 
     def _generate_all_mutations(
         self,
